@@ -56,6 +56,8 @@ type HarnessResult struct {
 	UnknownFeas  int
 	Merges       int
 	IfConv       int
+	WitnessOK    int
+	WitnessBad   []string
 	Samples      []*VecSample
 	Wall         float64
 }
@@ -1228,6 +1230,11 @@ func (w *Worker) ptrArith(st *State, op token.Token, a, b Value, p Ptr, swapped 
 		d := st.concreteInt(k, "pointer offset")
 		p.Off -= d
 		return p
+	case token.XOR, token.OR:
+		// internal/abi.NoEscape: unsafe.Pointer(uintptr(p) ^ 0)
+		if k.IsConst() && k.C == 0 {
+			return p
+		}
 	case token.AND:
 		// alignment tests: p & (2^k-1)
 		if k.IsConst() && k.C < 8 {
